@@ -230,7 +230,7 @@ func runC10(c *Ctx) {
 				cell = fv
 				return true, a.Op == token.EQL
 			})
-			okGate := c.RequireGate("C10.T2-commit-only-on-success", deferClosure, g, CallSinks(deferClosure, isCommit, false), "call tx.Commit")
+			okGate := c.RequireGate("C10.T2-commit-only-on-success", deferClosure, g, CallSinksX(deferClosure, isCommit, false), "call tx.Commit")
 			// Rollback on the other edge: with pass edges kept only, rollback unreachable; i.e. every path not passing the pass edge reaches Rollback
 			if okGate {
 				edges2, _ := g.PassEdges(deferClosure)
@@ -467,7 +467,14 @@ func runC10(c *Ctx) {
 	var rollbackCl []*ssa.Function
 	for _, a := range addToTree.AnonFuncs {
 		// the rollback closure restores headIds
-		if len(FieldWrites([]*ssa.Function{a}, p.Field(ot+":Tree.headIds"))) > 0 {
+		fns := []*ssa.Function{a}
+		for _, ci := range CallsIn(a) {
+			// a closure that only forwards to a rollback method
+			if cf := CalleeFunc(ci.Common()); cf != nil && cf.Blocks != nil && IsRepoFunc(cf) {
+				fns = append(fns, cf)
+			}
+		}
+		if len(FieldWrites(fns, p.Field(ot+":Tree.headIds"))) > 0 {
 			rollbackCl = append(rollbackCl, a)
 		}
 	}
@@ -480,7 +487,7 @@ func runC10(c *Ctx) {
 	addRawRecord := p.Func(al + ":(*aclList).AddRawRecord")
 	setState := p.Func(al + ":(*aclList).setState")
 	deferredTx := p.Func(ot + ":(*storageDeferredCreation).createStorageAndDoInTx")
-	createStorage := p.Func(ot + ":(*storageDeferredCreation).createStorage")
+	createStorage := p.FuncOpt(ot + ":(*storageDeferredCreation).createStorage") // may be inlined into its only caller
 	kvSet := p.Func(kv + ":(*storage).Set")
 	mDiffSet := p.Method("app/ldiff:Diff.Set")
 	mDiffRem := p.Method("app/ldiff:Diff.RemoveId")
@@ -575,7 +582,18 @@ func runC10(c *Ctx) {
 	{
 		storF := p.Field(ot + ":storageDeferredCreation.storage")
 		c.Fn(FuncName(deferredTx))
-		ev := CallSinks(deferredTx, CalleeFn(createStorage), false)
+		var ev []ssa.Instruction
+		if createStorage != nil {
+			ev = CallSinks(deferredTx, CalleeFn(createStorage), false)
+		}
+		// createStorage inlined into the tx driver: the event is the store of the new storage
+		Instrs(deferredTx, func(in ssa.Instruction) {
+			if st, ok := in.(*ssa.Store); ok {
+				if fa, ok := st.Addr.(*ssa.FieldAddr); ok && FieldOf(fa) == storF && !IsNilConst(st.Val) {
+					ev = append(ev, in)
+				}
+			}
+		})
 		resetsStorage := func(in ssa.Instruction) bool {
 			st, ok := in.(*ssa.Store)
 			if !ok {
